@@ -41,13 +41,17 @@ CLAIMED = {
          "Four databases (5 packed binaries; eight types with sparse 8/16-bit indices; 100 analogs = 3 fragments at 249; binaries with non-ONLINE flags forcing promotion and header breaks) x transmit buffers 249/300/2048 x an alphabet of 8-10 READ requests (class 0, class 1230, all objects, ranges inside / overlapping / outside, a specific variation, several headers) plus right / wrong / late confirm, timeout, another request, reconnect, update of a selected and of another point; depth 3-4 quick, 4-5 thorough. Oracle: FIR only first, FIN only last, consecutive sequence numbers, CON iff non-final or event-bearing, next fragment only after the matching confirm and then promptly, nothing after an abort, events before static data, and on completion the concatenated objects equal, header by header, every existing selected point exactly once ascending with the value/flags of the snapshot taken when the READ was delivered, in the requested / configured / promoted variation.",
          "Trusted: engine codecs incl. the measurement object decoder. Updates at quiescent points between fragments only (H6 not built). Values are small integers representable in every variation used. Order of types within a class-0 answer is not constrained.",
          "DESIGN.md §5 C11", True),
+ "C07": ("model_checking",
+         "exhaustive enumeration of link frames (control byte x destination class x source class x link state) and of frame sequences against a reference secondary station, in both roles on the real tasks; plus a finite product of application fragments by source/destination/state/feature",
+         "Link part: real OutstationTask and real MasterTask over a pipe; role x self-address feature x {not reset, reset} x all 256 control bytes x 7 destination classes (own, other, self 0xFFFC, three broadcast addresses, reserved) x 6 source classes x {no payload, one user-data segment}, each followed by a link-status probe; all frame sequences of length 3 (quick) / 4 (thorough) over an 11-14 letter alphabet (RESET_LINK_STATES, confirmed data with either FCB, unconfirmed data, link status, TEST, ACK, wrong destination / source, broadcasts). Reference: act iff opposite direction, endpoint source, destination own / self(feature, outstation) / broadcast(outstation, user data); exact reply (ACK, LINK_STATUS to the source from the own address) or none; confirmed data delivered once per FCB toggle after a reset; nothing ever transmitted for a broadcast. Application part: any-master x broadcast feature x {idle, solicited confirm wait, unsolicited confirm wait} x 11 fragments (valid, unknown function, FIR clear, UNS on request, truncated, 1 byte, CONFIRM ...) x {configured master, foreign master, three broadcast addresses}: nothing transmitted for a broadcast, nothing transmitted or executed for a foreign master unless any-master.",
+         "Trusted: engine link codec. Delivery is observed at application level. Invalid FCV encodings and TEST_LINK_STATES are 'either'.",
+         "DESIGN.md §5 C07", True),
 }
 
 NOT_YET = {
  "C01": "designed in DESIGN §5 C01 (hostile-input sweeps + session states); check not built yet",
  "C02": "designed in DESIGN §5 C02 (paired master/outstation simulation); check not built yet",
  "C06": "designed in DESIGN §5 C06; check not built yet",
- "C07": "designed in DESIGN §5 C07; check not built yet",
  "C08": "designed in DESIGN §5 C08; check not built yet",
  "C09": "designed in DESIGN §5 C09; check not built yet",
  "C10": "designed in DESIGN §5 C10; check not built yet",
